@@ -78,6 +78,15 @@ func (concEngine) Gen(prop string, seed uint64, tier string) *Spec {
 	if prop != "C14" && rng.Chance(0.25) {
 		spec.Knobs["rpc"] = 1
 	}
+	if prop != "C14" && rng.Chance(0.2) {
+		spec.Knobs["halffreed"] = 1
+		spec.Disk += 2000
+	}
+	if prop == "C01" {
+		// crash mode: the disk is cut off at points of the concurrent phase's write
+		// stream; all writes are stable, so every acknowledged operation must survive
+		spec.Knobs["crashc"] = 1
+	}
 	pat := uint64(1)
 	for c := 0; c < ncl; c++ {
 		n := 3 + rng.Intn(maxops-2)
@@ -137,6 +146,9 @@ func (concEngine) Gen(prop string, seed uint64, tier string) *Spec {
 				op = Op{K: "write", H: fileSlot(), Off: uint64(rng.Intn(3)) * 2048, Len: uint64(1 + rng.Intn(5000)), Pat: pat, How: rng.Intn(3)}
 				op.Cnt = op.Len
 				pat++
+				if prop == "C01" {
+					op.How = 1 + rng.Intn(2)
+				}
 			case 4:
 				op = Op{K: "read", H: fileSlot(), Off: uint64(rng.Intn(2)) * 2048, Len: 8192}
 			case 5:
@@ -179,8 +191,9 @@ type concRec struct {
 
 // porcupine state wrapper: canonical rendering for equality
 type pState struct {
-	m   *Model
-	key string
+	m       *Model
+	key     string
+	crashed bool
 }
 
 func (m *Model) canon() string {
@@ -215,18 +228,36 @@ func (m *Model) canon() string {
 	return b.String()
 }
 
+// pStep is the step function of the history checkers. Crash histories add
+// two things to the plain reference model: an operation that had not returned
+// when the disk was cut off (Pending) either took effect before the crash,
+// with exactly the reply it produced, or - placed after the first post-crash
+// observation - did not happen at all.
+func pStep(st *pState, in *In, out *Out) (*pState, error) {
+	if in.Pending && st.crashed {
+		return st, nil
+	}
+	m := st.m.Clone()
+	if err := m.Step(in, out); err != nil {
+		return nil, err
+	}
+	ns := &pState{m: m, crashed: st.crashed || in.PostCrash}
+	ns.key = m.canon()
+	if ns.crashed {
+		ns.key += "|crashed"
+	}
+	return ns, nil
+}
+
 func nfsPorcupineModel(init *Model) porcupine.Model {
 	return porcupine.Model{
 		Init: func() interface{} { return &pState{m: init, key: init.canon()} },
 		Step: func(state, input, output interface{}) (bool, interface{}) {
-			st := state.(*pState)
-			in := input.(*In)
-			out := output.(*Out)
-			m := st.m.Clone()
-			if err := m.Step(in, out); err != nil {
+			ns, err := pStep(state.(*pState), input.(*In), output.(*Out))
+			if err != nil {
 				return false, nil
 			}
-			return true, &pState{m: m, key: m.canon()}
+			return true, ns
 		},
 		Equal: func(a, b interface{}) bool { return a.(*pState).key == b.(*pState).key },
 		Hash:  func(a interface{}) uint64 { return hashString(a.(*pState).key) },
@@ -248,6 +279,9 @@ type concRun struct {
 	setup map[int]string
 	inv   int64 // lock-order inversions observed
 	blameDetail string
+	base       *simdisk.Image // disk image at the start of the concurrent phase
+	traceStart int
+	rootH      string
 }
 
 func (x *concRun) fail(kind, sig, detail string) {
@@ -278,6 +312,19 @@ func (x *concRun) main() {
 	x.setupCall(&In{K: "fsinfo", Obj: rootH})
 	x.setupCall(&In{K: "pathconf", Obj: rootH})
 	x.setup = map[int]string{slotRoot: rootH}
+	x.rootH = rootH
+	halfFreed := spec.knob("halffreed", 0) != 0
+	if halfFreed {
+		// the lowest inode number belongs to a large file that is removed just before
+		// a crash: its blocks are still being freed when the server comes back, and the
+		// first allocation of the concurrent phase is handed that inode (the creating
+		// RPC aborts, helps with the freeing over several transactions, and retries)
+		hf := x.setupCall(&In{K: "create", Obj: rootH, Name: "halffreed", How: 1})
+		for off := uint64(0); off < 1300*4096; off += 100 * 4096 {
+			x.setupCall(&In{K: "write", Obj: hf.H, Off: off, Count: 100 * 4096, Data: patData(950+off, 0, 100*4096), How: 0})
+		}
+		x.setupCall(&In{K: "commit", Obj: hf.H})
+	}
 	if spec.knob("recycle", 0) != 0 {
 		// make inode numbers of parents larger than those of (later) children:
 		// create and remove a few objects first so that numbers are reused
@@ -309,12 +356,24 @@ func (x *concRun) main() {
 		}
 		x.setupCall(&In{K: "commit", Obj: big.H})
 	}
-	if spec.knob("cold", 0) != 0 {
+	if halfFreed {
+		x.setupCall(&In{K: "remove", Obj: rootH, Name: "halffreed"})
+		simrt.Scope(x.rig.Group, func() { x.rig.Srv.Crash() })
+		x.rig = startServer(x.d, x.rig.Unstable, spec.knob("icache", 0), spec.knob("nshard", 0))
+		x.m.VerfSeen = false
+		x.res.count("setup_half_freed_inode", 1)
+	} else if spec.knob("cold", 0) != 0 {
 		x.rig.Shutdown()
 		x.rig = startServer(x.d, x.rig.Unstable, spec.knob("icache", 0), spec.knob("nshard", 0))
 		x.m.VerfSeen = false
 	}
 	init := x.m.Clone()
+	crashc := spec.knob("crashc", 0) != 0
+	if crashc {
+		simrt.Quiesce()
+		x.base = x.d.Current()
+		x.traceStart = len(x.d.Trace)
+	}
 
 	// lock-order monitor (probe) and directed preemption
 	held := map[int][]uint64{}
@@ -404,7 +463,10 @@ func (x *concRun) main() {
 				simrt.SetTag(fmt.Sprintf("client %d op %d %s", c, i, describeIn(in)))
 				r := &concRec{client: c, in: in}
 				r.call = x.stamp()
-				x.addRec(r)
+				id := x.addRec(r)
+				if crashc {
+					x.d.Mark(id, 0)
+				}
 				var out *Out
 				if conn != nil {
 					out = conn.CallRPC(in)
@@ -413,6 +475,9 @@ func (x *concRun) main() {
 					}
 				} else {
 					out = x.rig.Call(in)
+				}
+				if crashc {
+					x.d.Mark(id, 1)
 				}
 				r.ret = x.stamp()
 				r.out = out
@@ -468,6 +533,19 @@ func (x *concRun) main() {
 		x.recs = append(x.recs, r)
 		return out
 	}
+	observeTree(rootH, obs)
+	simrt.WaitUntil("background shrinker to finish", func() bool { return x.rig.Srv.VerifShrinkerThreads() == 0 })
+	simrt.Quiesce()
+	if _, err := fsck(x.rig, x.m.Lim.NameMax); err != nil {
+		fe := err.(*fsckErr)
+		x.fail("fsck", "fsck:"+fe.clause, "after the concurrent phase: "+err.Error())
+	}
+	x.m = init
+}
+
+// observeTree reads the whole tree through RPCs: every directory listing,
+// every file's bytes, every link target.
+func observeTree(rootH string, obs func(in *In) *Out) {
 	var walk func(h string, depth int)
 	walk = func(h string, depth int) {
 		if depth > 6 {
@@ -503,13 +581,6 @@ func (x *concRun) main() {
 		}
 	}
 	walk(rootH, 0)
-	simrt.WaitUntil("background shrinker to finish", func() bool { return x.rig.Srv.VerifShrinkerThreads() == 0 })
-	simrt.Quiesce()
-	if _, err := fsck(x.rig, x.m.Lim.NameMax); err != nil {
-		fe := err.(*fsckErr)
-		x.fail("fsck", "fsck:"+fe.clause, "after the concurrent phase: "+err.Error())
-	}
-	x.m = init
 }
 
 // stamp and addRec are the harness's own cross-task bookkeeping (ordered by
@@ -522,8 +593,9 @@ func (x *concRun) stamp() int64 {
 }
 
 //go:norace
-func (x *concRun) addRec(r *concRec) {
+func (x *concRun) addRec(r *concRec) int {
 	x.recs = append(x.recs, r)
+	return len(x.recs) - 1
 }
 
 func (concEngine) Exec(spec *Spec) *Result {
@@ -582,7 +654,170 @@ func (concEngine) Exec(spec *Spec) *Result {
 		res.count("histories_linearizable", 1)
 	}
 	res.StateHashes = append(res.StateHashes, hashString(concHistString(x.recs)))
+	if spec.knob("crashc", 0) != 0 {
+		if v := x.crashCheck(); v != nil {
+			v.Property = spec.Property
+			res.Viol = v
+		}
+	}
 	return res
+}
+
+// readOnlyKind: operations that change nothing; they constrain the crash-free
+// history only (a reply may legitimately reflect state that was committed in
+// memory but not yet durable, as long as the operation that made it had not
+// been acknowledged).
+func readOnlyKind(k string) bool {
+	switch k {
+	case "getattr", "lookup", "access", "readlink", "read", "readdir", "readdirplus", "fsinfo", "pathconf", "fsstat", "null":
+		return true
+	}
+	return false
+}
+
+// crashCheck cuts the disk off at points of the concurrent phase's write
+// stream (every prefix, sampled subsets of the un-barriered writes), restarts
+// a server on each image, reads the whole tree back and requires the history
+//   operations acknowledged before the cut (exact replies)
+//   operations in flight at the cut (took effect with their reply, or not at all)
+//   the post-crash observations
+// to be linearizable against the reference file system; the recovered
+// structure must pass fsck and conservation.
+func (x *concRun) crashCheck() *Violation {
+	spec := x.spec
+	tr := x.d.Trace[x.traceStart:]
+	invokeAt := map[int]int{}
+	returnAt := map[int]int{}
+	for i, ev := range tr {
+		if ev.Kind == simdisk.EvMark {
+			if ev.B == 0 {
+				invokeAt[ev.A] = i
+			} else {
+				returnAt[ev.A] = i
+			}
+		}
+	}
+	nclient := len(spec.Clients)
+	var conc []*concRec // records of the concurrent phase (the final observation is dropped)
+	for _, r := range x.recs {
+		if r.client < nclient {
+			conc = append(conc, r)
+		}
+	}
+	var cst crashStats
+	crng := simrt.Stream(spec.Seed, "crash")
+	maxImg := 60
+	if spec.Tier == "thorough" {
+		maxImg = 250
+	}
+	model := nfsPorcupineModel(x.m)
+	const crashT = int64(1) << 40
+	v := enumerateCrashes(x.base, tr, spec.Crash, crng, int(spec.knob("subsets", 2)), maxImg, &cst, func(cp *CrashPoint) *Violation {
+		where := fmt.Sprintf("crash before disk event %d of the concurrent phase (%s %s; %d un-barriered writes)", cp.Event, cp.Mode, cp.Mask, cp.Open)
+		var recs []*concRec
+		acked, inflight := 0, 0
+		for i, r := range conc {
+			inv, okI := invokeAt[i]
+			if !okI || inv >= cp.Event || readOnlyKind(r.in.K) || r.out == nil || r.out.Status != 0 {
+				continue
+			}
+			if ret, ok := returnAt[i]; ok && ret < cp.Event {
+				recs = append(recs, r)
+				acked++
+			} else {
+				in := *r.in
+				in.Pending = true
+				recs = append(recs, &concRec{client: r.client, in: &in, out: r.out, call: r.call, ret: crashT + 1<<20})
+				inflight++
+			}
+		}
+		obsRecs, v := x.recoverAndObserve(cp.Img, crashT, where)
+		if v != nil {
+			return v
+		}
+		recs = append(recs, obsRecs...)
+		x.res.StateHashes = append(x.res.StateHashes, cp.Img.Hash())
+		var hist []porcupine.Operation
+		for _, r := range recs {
+			hist = append(hist, porcupine.Operation{ClientId: r.client, Input: r.in, Output: r.out, Call: r.call, Return: r.ret})
+		}
+		switch porcupine.CheckOperationsTimeout(model, hist, 20*time.Second) {
+		case porcupine.Illegal:
+			dbg := linDebug(x.m, recs)
+			if strings.HasPrefix(dbg, "a linearization exists") {
+				x.res.Inconcl++
+				x.res.count("checker_disagreement", 1)
+				return nil
+			}
+			return &Violation{Kind: "crash-state", Sig: "conc-crash-state",
+				Detail: where + fmt.Sprintf(": the recovered file system is not explained by the %d operations acknowledged before the crash plus any subset of the %d in flight; %s; history: %s",
+					acked, inflight, dbg, concHistString(recs))}
+		case porcupine.Unknown:
+			x.res.Inconcl++
+		default:
+			x.res.count("crash_histories_linearizable", 1)
+			if inflight > 0 {
+				x.res.count("crash_histories_with_inflight_ops", 1)
+			}
+		}
+		return nil
+	})
+	x.res.count("crash_points", int64(cst.Points))
+	x.res.count("crash_images", int64(cst.Images))
+	x.res.count("crash_subset_images", int64(cst.Subsets))
+	x.res.count("disk_writes", int64(cst.Writes))
+	x.res.count("disk_barriers", int64(cst.Barriers))
+	return v
+}
+
+// recoverAndObserve starts a server on a crash image, reads the tree back
+// (records stamped after crashT), and checks the structure.
+func (x *concRun) recoverAndObserve(img *simdisk.Image, crashT int64, where string) ([]*concRec, *Violation) {
+	spec := x.spec
+	d := simdisk.FromImage(img)
+	d.NoTrace = true
+	var recs []*concRec
+	var viol *Violation
+	fail := func(kind, sig, detail string) {
+		if viol == nil {
+			viol = &Violation{Kind: kind, Sig: sig, Detail: where + ": " + detail}
+		}
+		simrt.Fail("violation", detail)
+	}
+	sc := spec.Sched
+	sc.Seed ^= img.Hash()
+	seq := crashT
+	sim := simrt.Run(simConfig(sc, 10_000_000), func() {
+		simrt.SetTag("recovery")
+		rig := startServer(d, spec.knob("unstable", 1) != 0, spec.knob("icache", 0), spec.knob("nshard", 0))
+		simrt.SetTag("observation after recovery")
+		observeTree(x.rootH, func(in *In) *Out {
+			in.PostCrash = true
+			r := &concRec{client: len(spec.Clients), in: in}
+			seq++
+			r.call = seq
+			r.out = rig.Call(in)
+			seq++
+			r.ret = seq
+			recs = append(recs, r)
+			return r.out
+		})
+		simrt.Quiesce()
+		info, err := fsck(rig, x.m.Lim.NameMax)
+		if err != nil {
+			fail("fsck", "fsck:"+err.(*fsckErr).clause, "after recovery: "+err.Error())
+		}
+		if err := conservation(info); err != nil {
+			fail("conservation", "conservation:"+err.(*fsckErr).clause, "after recovery: "+err.Error())
+		}
+	})
+	if viol != nil {
+		return nil, viol
+	}
+	if v := outcomeViolation(spec.Property, sim.Outcome, where+": recovery"); v != nil {
+		return nil, v
+	}
+	return recs, nil
 }
 
 // concBlame finds a small witness: the kinds of operations of the shortest
@@ -655,8 +890,8 @@ func linDebug(init *Model, recs []*concRec) string {
 	var bestWhy []string
 	var order []int
 	budget := 2_000_000
-	var dfs func(m *Model, k int)
-	dfs = func(m *Model, k int) {
+	var dfs func(m *pState, k int)
+	dfs = func(m *pState, k int) {
 		if budget <= 0 {
 			return
 		}
@@ -679,8 +914,8 @@ func linDebug(init *Model, recs []*concRec) string {
 			if used[i] || recs[i].call > minRet {
 				continue
 			}
-			c := m.Clone()
-			if err := c.Step(recs[i].in, recs[i].out); err != nil {
+			c, err := pStep(m, recs[i].in, recs[i].out)
+			if err != nil {
 				why = append(why, fmt.Sprintf("[c%d %s @%d-%d: %v]", recs[i].client, describeIn(recs[i].in), recs[i].call, recs[i].ret, err))
 				continue
 			}
@@ -696,7 +931,7 @@ func linDebug(init *Model, recs []*concRec) string {
 			bestWhy = why
 		}
 	}
-	dfs(init, 0)
+	dfs(&pState{m: init}, 0)
 	if best == n {
 		return "a linearization exists (porcupine and the brute-force search disagree)"
 	}
